@@ -90,13 +90,57 @@ def extract_cache_shape() -> str:
     return "true" if c01._method_body(tree, "Model", "_create_cache") == _CREATE_CACHE_SHAPE else "false"
 
 
+# two statements of _create_cache whose recognised alternative shapes have a model of their own (coq/core/CacheData.v,
+# CacheDraw.v): the seed of the closure `all_parameter_names` and where `initial_conditions` is read from.  Anything
+# else is Unknown (fail closed).
+_SEED_SHAPES = {
+    "set(parameter_names)": "SeedPar",
+    "parameter_names | set(self._data)": "SeedParData",  # seeded C01-9
+}
+_INIT_SHAPES = {
+    "{k: cast(float, dependent[k]) for k in self._variables}": "InitFromPass",
+    "{k: base_variable_values[k] if (init := variable_assignments.get(k)) is None else init.calculate(dependent) for k in self._variables}": "InitAgain",  # seeded C13-8
+}
+
+
+def extract_cache_kinds() -> dict[str, str]:
+    import ast
+
+    out = {"split_seed": "SeedUnknown", "init_source": "InitUnknown"}
+    try:
+        tree = ast.parse((common.REPO / "src/mxlpy/model.py").read_text())
+        fn = next(f for n in tree.body if isinstance(n, ast.ClassDef) and n.name == "Model"
+                  for f in n.body if isinstance(f, ast.FunctionDef) and f.name == "_create_cache")
+        seeds = [st for st in fn.body if isinstance(st, ast.Assign) and len(st.targets) == 1
+                 and isinstance(st.targets[0], ast.Name) and st.targets[0].id == "all_parameter_names"]
+        inits = [st for st in fn.body if isinstance(st, (ast.Assign, ast.AnnAssign))
+                 and isinstance((st.targets[0] if isinstance(st, ast.Assign) else st.target), ast.Name)
+                 and (st.targets[0] if isinstance(st, ast.Assign) else st.target).id == "initial_conditions"]
+        # every OTHER write to the two names (augmented assignment, .add outside the split loop ...) is covered by the
+        # whole-body pin gen_cache_shape; here exactly one plain assignment each is demanded
+        if len(seeds) == 1:
+            out["split_seed"] = _SEED_SHAPES.get(ast.unparse(seeds[0].value), "SeedUnknown")
+        if len(inits) == 1 and inits[0].value is not None:
+            out["init_source"] = _INIT_SHAPES.get(ast.unparse(inits[0].value), "InitUnknown")
+    except Exception:  # noqa: BLE001  (fail closed)
+        pass
+    return out
+
+
 def gen() -> dict:
     f = dict(c01.gen())
     f["create_cache_shape"] = extract_cache_shape()
+    f.update(extract_cache_kinds())
     text = (
         "(* REGENERATED from src/mxlpy/model.py (Model._create_cache) by harness/c13.py; do not edit.\n"
-        "   true = the method body is statement-for-statement the one modelled in Cache.v *)\n"
+        "   gen_cache_shape: true = the method body is statement-for-statement the one modelled in Cache.v;\n"
+        "   gen_split_seed: what the closure all_parameter_names starts from (CacheData.v);\n"
+        "   gen_init_source: initial_conditions read from the values of the time-zero pass, or evaluated again (CacheDraw.v) *)\n"
+        "Inductive seed_kind := SeedPar | SeedParData | SeedUnknown.\n"
+        "Inductive init_kind := InitFromPass | InitAgain | InitUnknown.\n"
         f"Definition gen_cache_shape : bool := {f['create_cache_shape']}.\n"
+        f"Definition gen_split_seed : seed_kind := {f['split_seed']}.\n"
+        f"Definition gen_init_source : init_kind := {f['init_source']}.\n"
     )
     common.write_if_changed(common.area_dir(AREA) / "GenCacheFacts.v", text)
     return f
@@ -371,10 +415,259 @@ def stage_result_then_update(run, rng, desc, orc, states, dist, budget):
     return None
 
 
+# ---------------------------------------------------------------------------------------
+# assignment functions that are NOT pure functions of their arguments (closing round, seeded C13-8)
+# ---------------------------------------------------------------------------------------
+
+
+class Tape:
+    """What the drawing assignment functions of one model did: (assignment name, draw index over the model's life)."""
+
+    def __init__(self) -> None:
+        self.calls: list[tuple[int, int]] = []
+
+
+def drawing(base, name: int, tape: Tape):
+    """An assignment function that draws: the k-th draw made by the model (k = 1, 2, ... over its whole life) adds k to the
+    polynomial `base` of its arguments.  No two evaluations return the same number, so "computed ONCE" is observable:
+    whatever is shown for the assigned name has to be the number of the one evaluation of this resolution."""
+
+    def fn(*args):
+        k = len(tape.calls) + 1
+        tape.calls.append((name, k))
+        return base(*args) + k
+
+    fn.__name__ = f"draw_{getattr(base, '__name__', 'f')}"
+    return fn
+
+
+def build_drawing(desc, imp, tape: Tape):
+    """modelgen.build, with the assignment functions of the names in `imp` replaced by drawing ones (public API only)."""
+    from mxlpy import Model
+    from mxlpy.types import InitialAssignment
+
+    from harness import fnlib
+
+    def valia(n, v):
+        if v[0] == "plain":
+            return v[1]
+        fn = drawing(fnlib.FNS[v[1]], n, tape) if n in imp else fnlib.FNS[v[1]]
+        return InitialAssignment(fn=fn, args=[nm(a) for a in v[2]])
+
+    m = Model()
+    for n, v in desc["dat"]:
+        m.add_data(nm(n), v)
+    for n, v in desc["par"]:
+        m.add_parameter(nm(n), valia(n, v))
+    for n, v in desc["var"]:
+        m.add_variable(nm(n), valia(n, v))
+    for n, fid, args in desc["der"]:
+        m.add_derived(nm(n), fn=fnlib.FNS[fid], args=[nm(a) for a in args])
+    for n, fid, args, st in desc["rxn"]:
+        m.add_reaction(nm(n), fn=fnlib.FNS[fid], args=[nm(a) for a in args], stoichiometry={nm(c): modelgen.py_coef(cf) for c, cf in st})
+    for sg in desc["sur"]:
+        m.add_surrogate(nm(sg[0]), modelgen.py_surrogate(sg))
+    for n, fid, args in desc["ro"]:
+        m.add_readout(nm(n), fn=fnlib.FNS[fid], args=[nm(a) for a in args])
+    return m
+
+
+class DrawOracle(Oracle):
+    """The independent evaluator for a resolution in which assignment n drew `bump[n]`: the assignment's value is its
+    polynomial applied to the time-zero values of its arguments PLUS that draw; everything that names n sees that number."""
+
+    def __init__(self, desc: dict, bump: dict[int, int]) -> None:
+        super().__init__(desc)
+        self.bump = dict(bump)
+
+    def initial_env(self) -> dict[int, int]:
+        from harness import fnlib
+
+        if self._init is not None:
+            return self._init
+        memo: dict[int, int] = {}
+        ias = {n: v for n, v in list(self.par.items()) + list(self.var.items()) if v[0] == "ia"}
+
+        def val(n: int) -> int:
+            if n in memo:
+                return memo[n]
+            if n == 0:
+                v = 0
+            elif n in ias:
+                _, f, a = ias[n]
+                v = fnlib.fsem(f, [val(x) for x in a]) + self.bump.get(n, 0)
+            elif n in self.var:
+                v = self.var[n][1]
+            elif n in self.par:
+                v = self.par[n][1]
+            elif n in self.dat:
+                v = self.dat[n]
+            elif n in self.der:
+                f, a = self.der[n]
+                v = fnlib.fsem(f, [val(x) for x in a])
+            elif n in self.rxn:
+                f, a, _ = self.rxn[n]
+                v = fnlib.fsem(f, [val(x) for x in a])
+            elif n in self.sur_of_out:
+                sg, i = self.sur_of_out[n]
+                v = fnlib.fsemN(sg[1], [val(x) for x in sg[2]])[i]
+            else:
+                raise KeyError(n)
+            memo[n] = self._chk(v)
+            return memo[n]
+
+        for n in list(ias) + list(self.var) + list(self.par) + list(self.der) + list(self.rxn) + list(self.sur_of_out):
+            val(n)
+        self._init = memo
+        return memo
+
+
+def plant_drawn_start(rng, desc: dict) -> tuple[dict, list[int]]:
+    """A copy of `desc` with a new variable whose start value is an assignment (made a drawing one by the caller), a
+    parameter assigned from that variable (resolved at time zero FROM it), sometimes a derived parameter behind that, and a
+    reaction converting the variable that reads both.  -> (description, assignments to be made drawing ones)"""
+    from harness import fnlib
+
+    d = modelgen.copy_desc(desc)
+    fresh = modelgen._fresh_from(d)
+    plain_p = [n for n, v in d["par"] if v[0] == "plain"]
+    old_vars = [n for n, _ in d["var"]]
+    y = fresh()
+    ar = rng.choice([0, 1, 2])
+    d["var"].append((y, ("ia", rng.choice(fnlib.BY_ARITY[ar]), [rng.choice(plain_p) for _ in range(ar)])))
+    ytot = fresh()
+    if rng.random() < 0.5:
+        d["par"].append((ytot, ("ia", 0, [y])))  # y_total = y
+    else:
+        a = [y, rng.choice(plain_p)]
+        rng.shuffle(a)
+        d["par"].append((ytot, ("ia", rng.choice([2, 3, 4]), a)))
+    if rng.random() < 0.4:
+        dp = fresh()
+        d["der"].append((dp, rng.choice(fnlib.BY_ARITY[2]), [ytot, rng.choice(plain_p)]))
+    r = fresh()
+    d["rxn"].append((r, rng.choice([2, 3, 4]), [y, ytot], [(y, ("stat", -1)), (rng.choice(old_vars), ("stat", 1))]))
+    imp = [y] + [n for n, v in desc["par"] + desc["var"] if v[0] == "ia" and rng.random() < 0.5]
+    if rng.random() < 0.4:
+        imp.append(ytot)  # the assigned parameter draws as well
+    for k in ("par", "var", "der", "rxn"):
+        rng.shuffle(d[k])
+    return d, imp
+
+
+def judge_drawn(desc, imp, calls, obs, per_state) -> str | None:
+    """One resolution of the model (`calls` = the draws made since the previous one): every drawing assignment was
+    evaluated exactly once, and every number shown (initial conditions, default state, Simulator start, assigned and derived
+    parameters, fluxes, right-hand side) is resolved from THAT evaluation."""
+    names = [n for n, _ in calls]
+    first = {}
+    for n, k in calls:
+        first.setdefault(n, k)
+    cnt = {n: names.count(n) for n in imp}
+    orc = DrawOracle(desc, first)
+    bad = judge13(desc, orc, obs, per_state)
+    often = {nm(n): c for n, c in cnt.items() if c != 1}
+    if bad:
+        return (f"{bad} -- the assignment functions of {[nm(n) for n in imp]} draw (the k-th draw of the model adds k to a polynomial of "
+                f"the arguments); draws made in this resolution, in call order: {[(nm(n), k) for n, k in calls]}"
+                + (f"; evaluated more or less than once: {often}" if often else ""))
+    if often:
+        return (f"initial assignments must be computed once per resolution of the model; number of evaluations in this resolution: {often} "
+                f"(draws in call order: {[(nm(n), k) for n, k in calls]})")
+    return None
+
+
+def seq_drawn(desc, imp, states, ups_v, ups_p) -> tuple[str | None, list]:
+    """build -> ask everything (first resolution) -> edit a plain start value / parameter through the public API -> ask
+    everything again (second resolution).  -> (what is wrong | None, [(desc_k, offset, calls, obs)] per resolution)"""
+    tape = Tape()
+    m = build_drawing(desc, set(imp), tape)
+    seen = []
+    cur = desc
+    for k in range(2):
+        if k == 1:
+            if not ups_v and not ups_p:
+                break
+            for n, v in ups_v:
+                m.update_variable(nm(n), float(v))
+            for n, v in ups_p:
+                m.update_parameter(nm(n), float(v))
+            cur = apply_updates13(desc, ups_v, ups_p)
+        mark = len(tape.calls)
+        obs = observe13(m, cur)
+        per_state = observe_states(m, states)
+        calls = tape.calls[mark:]
+        # what was seen goes to the Coq correspondence whether or not the judge accepts it: the stateful model is run
+        # in the shape the regenerated fact gen_init_source names and must agree with the code AS IT IS
+        seen.append((cur, mark, calls, obs, per_state))
+        bad = judge_drawn(cur, imp, calls, obs, per_state)
+        if bad:
+            pre = "" if k == 0 else f"after update_variable {[(nm(n), v) for n, v in ups_v]} / update_parameter {[(nm(n), v) for n, v in ups_p]}: "
+            return pre + bad, seen
+    return None, seen
+
+
+def run_drawn(run: Run, n_models: int):
+    """Own random stream ("c13-draw"): the main stream is untouched."""
+    rng = common.rng_for(run.seed, "c13-draw")
+    dist = {"models": 0, "discarded_unbounded": 0, "resolutions": 0, "drawing_assignments": 0, "drawn_value_named_by_assignment": 0,
+            "drawn_value_behind_derived_parameter": 0}
+    out = []
+    n_viol = 0
+    for i in range(n_models):
+        desc, imp = plant_drawn_start(rng, modelgen.gen_model(rng, ia_bias=0.9, max_comp=5))
+        states = [(0, None), (rng.randint(1, 4), None), modelgen.gen_state(rng, desc)]
+        plain_v = [n for n, v in desc["var"] if v[0] == "plain"]
+        plain_p = [n for n, v in desc["par"] if v[0] == "plain"]
+        ups_v = [(n, rng.randint(-3, 3)) for n in rng.sample(plain_v, min(len(plain_v), rng.choice([0, 1])))]
+        ups_p = [(n, rng.randint(-3, 3)) for n in rng.sample(plain_p, min(len(plain_p), rng.choice([0, 1, 1])))]
+        run.count_case(("c13draw", repr(desc), repr(imp), repr(states), repr(ups_v), repr(ups_p)), nontrivial=True)
+        try:
+            bad, seen = seq_drawn(desc, imp, states, ups_v, ups_p)
+        except Unbounded:
+            dist["discarded_unbounded"] += 1
+            continue
+        except Exception as e:  # noqa: BLE001
+            bad, seen = f"well-formed model with drawing assignment functions raised {type(e).__name__}: {e}", []
+        dist["models"] += 1
+        dist["resolutions"] += len(seen)
+        dist["drawing_assignments"] += len(imp)
+        ias = {n: v for n, v in desc["par"] + desc["var"] if v[0] == "ia"}
+        dist["drawn_value_named_by_assignment"] += sum(1 for v in ias.values() if set(v[2]) & set(imp))
+        dist["drawn_value_behind_derived_parameter"] += sum(1 for _, _, a in desc["der"] if set(a) & set(ias))
+        out += [(d, imp, off, calls, obs, ps) for d, off, calls, obs, ps in seen]
+        if bad:
+            if n_viol < 3:
+                n_viol += 1
+                run.violation(f"C13 {bad}", {"kind": "c13draw", "desc": desc, "imp": imp, "states": states, "updates_var": ups_v, "updates_par": ups_p})
+            continue
+        if i == 0:
+            run.sample({"model_with_drawing_assignments": desc, "drawing": imp})
+    return out, dist
+
+
 def coq_case13(desc, obs) -> str:
     return (
         f"({modelgen.coq_model(desc)}, {c01.coq_pairs(obs['ic'])}, {c01.coq_pairs(obs['pv'])}, "
         f"{clist(map(cn, obs['dp']))}, {clist(map(cn, obs['dv']))})"
+    )
+
+
+def coq_case13d(desc, imp, off, calls, obs, per_state) -> str:
+    args0 = dict(per_state[0][2])  # argument table at the default state, t = 0
+    ia_par = [(n, args0[n]) for n, v in desc["par"] if v[0] == "ia"]
+    return (
+        f"({modelgen.coq_model(desc)}, {clist(map(cn, imp))}, {common.cz(off)}, {c01.coq_pairs(obs['ic'])}, "
+        f"{c01.coq_pairs(ia_par)}, {clist(cn(n) for n, _ in calls)})"
+    )
+
+
+def corr_file_d(cases: list[str]) -> str:
+    return (
+        c01.CORR_HEADER.replace("CorrC01.", "CorrC01 CacheDraw GenCacheFacts CorrC13d.")
+        + "Definition cases : list c13d_case := [\n  "
+        + ";\n  ".join(cases)
+        + "\n].\nEval vm_compute in (filter_idx (fun c => negb (c13d_case_ok c)) cases).\n"
     )
 
 
@@ -494,11 +787,17 @@ def check(run: Run) -> None:
                 continue
             cases.append(coq_case13(desc2, obs2))
             descs.append(desc2)
+    drawn, dist_d = run_drawn(run, 400 if thorough else 80)
+    dist["drawing_assignments"] = dist_d
     run.coverage["input_distribution"] = dist
     files = {f"c13_{k:04d}": corr_file(chunk) for k, chunk in enumerate(common.chunks(cases, 200))}
+    n_plain = len(files)
+    dcases = [coq_case13d(*x) for x in drawn]
+    for k, chunk in enumerate(common.chunks(dcases, 200)):
+        files[f"c13d_{k:04d}"] = corr_file_d(chunk)
     res = common.coq_eval_many(AREA, files, timeout_s=900)
     mism = 0
-    for k, name in enumerate(sorted(files)):
+    for k, name in enumerate(sorted(n for n in files if n.startswith("c13_"))):
         ok, out = res[name]
         lists = common.parse_eval_list(out) if ok else None
         if not ok or not lists:
@@ -508,6 +807,20 @@ def check(run: Run) -> None:
             mism += 1
             if len(run.broken_correspondence) < 4:
                 run.broken_correspondence.append(f"model/implementation disagree on C13 observations: desc={descs[k * 200 + j]}")
+    for k, name in enumerate(sorted(n for n in files if n.startswith("c13d_"))):
+        ok, out = res[name]
+        lists = common.parse_eval_list(out) if ok else None
+        if not ok or not lists:
+            run.broken_correspondence.append(f"correspondence shard {name} did not evaluate: {out[-400:]}")
+            continue
+        for j in lists[-1]:
+            mism += 1
+            if len(run.broken_correspondence) < 4:
+                d, imp, off, calls, _, _ = drawn[k * 200 + j]
+                run.broken_correspondence.append(f"stateful model (CacheDraw.v) / implementation disagree: desc={d} drawing={imp} draws_before={off} calls={calls}")
+    assert n_plain + len([n for n in files if n.startswith("c13d_")]) == len(files)
+    cases = cases + dcases
+    run.coverage["correspondence_cases"] = {"pure": len(cases) - len(dcases), "drawing_assignment_resolutions": len(dcases)}
     run.coverage["traces_validated_against_impl"] = len(cases) - mism
     run.coverage["correspondence_mismatches"] = mism
 
@@ -526,6 +839,14 @@ def replay(rep: dict) -> int:
         print("nothing to replay: ", rep.get("what"))
         return 1
     desc = {k: [c01._tup(x) for x in v] for k, v in r["desc"].items()}
+    if r.get("kind") == "c13draw":
+        states = [(t, None if s is None else {int(k): v for k, v in s.items()}) for t, s in r["states"]]
+        try:
+            bad = seq_drawn(desc, list(r["imp"]), states, [tuple(u) for u in r["updates_var"]], [tuple(u) for u in r["updates_par"]])[0]
+        except Exception as e:  # noqa: BLE001
+            bad = f"raised {type(e).__name__}: {e}"
+        print(bad or "property holds on this input")
+        return 1 if bad else 0
     if r.get("kind") == "c13seq":
         states = [(t, None if s is None else {int(k): v for k, v in s.items()}) for t, s in r["states"]]
         orc = Oracle(desc)
